@@ -62,6 +62,10 @@ def _mask_inconclusive(ctx):
             # that it can continue from that interleaving (it echoes the outcome iff it is one of the allowed ones,
             # otherwise it prints the allowed set)
             fed = [l + " => " + o if l.startswith("window ") else l for l, o in zip(lines, io)]
+        if "overlay_fallback" in ctx.extra:
+            # black-box build: the harness observes ticks through calls of the public API on a hidden limiter; the model
+            # is told to perform the same calls (driver mode `bb`)
+            fed = [l + " bb" if l.startswith("reset ") and len(l.split()) == 2 else l for l in fed]
         mo = model0(driver, fed, *a, **k)
         if mo is None or io is None or len(io) != len(mo):
             return mo
@@ -181,12 +185,12 @@ def run(ctx):
     ctx.harness("./cmd/c16", overlay=OVERLAY)
     if "overlay_fallback" in ctx.extra:
         # the white-box hooks name private identifiers of rate/limiter.go; when they no longer compile the harness is
-        # built black-box (tag nooverlay): ticks are observed through a hidden capacity-0 child and its capacity-1
-        # children (go/cmd/c16/hooks_stub.go); the `window` lines, which have to hold the controller's lock, are output as
+        # built black-box (tag nooverlay): ticks are observed through calls of the public API on a hidden capacity-1
+        # child of the root, which the model performs as well (go/cmd/c16/hooks_stub.go, driver mode `bb`); the `window` lines, which have to hold the controller's lock, are output as
         # `inconclusive` (not compared).  Burst lock-step and both stress oracles run as usual.
         ctx.extra["skipped_areas"] = ["window (forced Close-vs-tick schedules: needs the white-box lock hooks)"]
-        ctx.assumptions.append("black-box fallback build: ticks observed through the public API only (hidden sentinel "
-                               "limiters that never carry usage); area window skipped")
+        ctx.assumptions.append("black-box fallback build: ticks observed through the public API only (Use/SetCap on a "
+                               "hidden child of the root, performed by the model as well); area window skipped")
     _mask_inconclusive(ctx)
     _cheap_minimise(ctx)
     period = "200" if ctx.tier == "quick" else "120"
